@@ -92,6 +92,15 @@ def gen_cases(tier, seed):
     for driver in ("parfile", "parblock"):
         yield {"family": "Bbase", "spec": small + [F("src/big", 400000, 7)], "args": ["--driver", driver, "-w", "3"] + margs, "driver": driver,
                "name": "queue-long", "fs": "ext4", "per_site": 1, "sseed": r.randrange(1 << 30), "max": 500 if tier == "quick" else 100000}
+    # family D: the source ends early (it shrank, or it is a pseudo-file whose size over-reports): from the k-th call on, the
+    # kernel copy / the userspace reads report end-of-file although bytes were requested
+    spec, margs = trees["multi-block"]
+    for driver in ("parfile", "parblock"):
+        for w in (1, 4):
+            for mode in ("cfr-eof", "uspace-eof", "cfr-eof-once"):
+                for k in (1, 3):
+                    yield {"family": "D", "name": "early-eof:" + mode, "spec": spec, "args": ["--driver", driver, "-w", str(w)] + margs, "driver": driver,
+                           "workers": w, "mode": mode, "k": k, "plan": {"sched": "free", "sched_seed": 1}, "fs": "ext4"}
     # family C: library API
     for c in _api_all_fail(trees, r, tier):
         yield c
@@ -178,6 +187,20 @@ def run_case(case):
             run = core.run_xcp(sb, case["args"], plan)
             ok = judge_termination(run, res, "input:%s:%s" % (case["name"], case["driver"]), " ".join(case["args"]))
             key = ["A", case["name"], case["driver"], case["workers"], case["plan"]["sched"]]
+        elif fam == "D":
+            U = root + "/"
+            if case["mode"] == "cfr-eof":
+                rules = [{"id": "z", "sys": "copy_file_range", "under": U, "action": "retval", "val": 0, "from": case["k"]}]
+            elif case["mode"] == "cfr-eof-once":
+                rules = [{"id": "z", "sys": "copy_file_range", "under": U, "action": "retval", "val": 0, "nth": case["k"]}]
+            else:
+                rules = [{"id": "r", "sys": "copy_file_range", "under": U, "action": "fault", "errno": 18},
+                         {"id": "z", "sys": "read" if case["driver"] == "parfile" else "pread64", "under": U, "action": "retval", "val": 0, "from": case["k"]}]
+            plan["rules"] = rules
+            plan["max_steps"] = 300000
+            run = core.run_xcp(sb, case["args"], plan)
+            ok = judge_termination(run, res, "%s:%s" % (case["name"], case["driver"]), "%s from call %d; %s" % (case["mode"], case["k"], " ".join(case["args"])))
+            key = ["D", case["name"], case["driver"], case["workers"], case["k"]]
         elif fam == "B":
             s = dict(case["site"])
             s["path"] = s["path"].replace("@ROOT@", root)
